@@ -399,6 +399,25 @@ impl Runner {
                     })
                 })
             }
+            "to_range" => {
+                let (st, l): (usize, usize) = (toks[1].parse().unwrap(), toks[2].parse().unwrap());
+                answer(catch(move || {
+                    let r: std::ops::Range<usize> = match via {
+                        "into" => IndexRange::new(st, l).into(),
+                        _ => std::ops::Range::from(IndexRange::new(st, l)),
+                    };
+                    r
+                }), |r| format!("ok {}..{}", r.start, r.end))
+            }
+            "from_range" => {
+                let (st, e): (usize, usize) = (toks[1].parse().unwrap(), toks[2].parse().unwrap());
+                answer(catch(move || {
+                    let r: IndexRange = (st..e).into();
+                    // an IndexRange does not expose its fields: read them through the conversions
+                    let arr: std::ops::Range<usize> = r.clone().into();
+                    (arr.start, arr.end - arr.start)
+                }), |(s0, l)| format!("ok {}:{}", s0, l))
+            }
             "is_valid" => {
                 let shape = parse_shape(toks[1]);
                 with_d!(shape.len(), D => {
@@ -1980,6 +1999,20 @@ fn gen_adversarial_names(g: &mut Gen) {
     g.op(format!("@ is_valid {}:2,{}:3", EMPTY_NAME, EMPTY_NAME));
 }
 
+/// the conversions between `IndexRange` and `std::ops::Range<usize>`
+fn gen_conversions(g: &mut Gen) {
+    let pool: Vec<usize> = vec![0, 1, 2, 5, HALF - 1, HALF, MAX - 2, MAX - 1, MAX];
+    for &a in &pool {
+        for &b in &pool {
+            let via = *g.rng.pick(&["from", "into"]);
+            g.op(format!("@ to_range {} {} via={}", a, b, via));
+            g.count(if a.checked_add(b).is_none() { "to_range.start+length_overflows" } else { "to_range.representable" });
+            g.op(format!("@ from_range {} {}", a, b));
+            g.count(if b < a { "from_range.end_before_start" } else { "from_range.ordered" });
+        }
+    }
+}
+
 pub fn gen(g: &mut Gen) {
     gen_adversarial_names(g);
     gen_large(g);
@@ -1990,4 +2023,5 @@ pub fn gen(g: &mut Gen) {
     gen_matrices(g);
     gen_linalg(g);
     gen_records(g);
+    gen_conversions(g);
 }
